@@ -123,8 +123,11 @@ enum Op {
     WriteAll,
     Write,
     Fmt,
+    /// write_vectored with the chunk cut into two slices, driven by the standard protocol
+    /// (advance by the reported count, retry on Interrupted) until everything is consumed
+    Vectored,
 }
-const OPS: [Op; 3] = [Op::WriteAll, Op::Write, Op::Fmt];
+const OPS: [Op; 4] = [Op::WriteAll, Op::Write, Op::Fmt, Op::Vectored];
 
 fn apply(stream: &mut WinconStream<Console>, op: Op, chunk: &[u8]) -> io::Result<Option<usize>> {
     match op {
@@ -137,6 +140,32 @@ fn apply(stream: &mut WinconStream<Console>, op: Op, chunk: &[u8]) -> io::Result
             }
             Err(_) => stream.write_all(chunk).map(|_| None),
         },
+        Op::Vectored => {
+            let cut = chunk.len() / 2;
+            let mut consumed = 0usize;
+            let mut rounds = 0;
+            while consumed < chunk.len() {
+                rounds += 1;
+                if rounds > 64 {
+                    return Err(io::Error::new(ErrorKind::Other, "vectored protocol did not terminate"));
+                }
+                let a = &chunk[consumed.min(cut)..cut];
+                let b = &chunk[consumed.max(cut)..];
+                let slices = [io::IoSlice::new(a), io::IoSlice::new(b)];
+                match stream.write_vectored(&slices) {
+                    Ok(0) => return Err(io::Error::new(ErrorKind::WriteZero, "write_vectored returned 0")),
+                    Ok(n) => {
+                        if n > chunk.len() - consumed {
+                            return Err(io::Error::new(ErrorKind::Other, format!("write_vectored returned {n}, more than offered")));
+                        }
+                        consumed += n;
+                    }
+                    Err(e) if e.kind() == ErrorKind::Interrupted => {}
+                    Err(e) => return Err(e),
+                }
+            }
+            Ok(None)
+        }
     }
 }
 
@@ -171,7 +200,7 @@ struct ConsoleSys {
 
 impl ConsoleSys {
     fn tok(&self, t: usize) -> (Op, usize) {
-        (OPS[t % 3], t / 3)
+        (OPS[t % 4], t / 4)
     }
 }
 
@@ -181,7 +210,7 @@ impl System for ConsoleSys {
         "anstream::WinconStream/ops x tokens".into()
     }
     fn alphabet_len(&self) -> usize {
-        self.inner.tokens.len() * 3
+        self.inner.tokens.len() * 4
     }
     fn token_label(&self, t: usize) -> String {
         let (op, c) = self.tok(t);
@@ -300,7 +329,7 @@ fn run_fault_case(tokens: &[usize], op: Op, script: Script) -> (Result<(), Strin
                 Ok(())
             }
             Err(e) => {
-                let allowed = s.errors.contains(&e.kind()) || (s.zero && e.kind() == ErrorKind::WriteZero);
+                let allowed = s.errors.contains(&e.kind()) || (s.zero && e.kind() == ErrorKind::WriteZero) || (op == Op::Vectored && e.kind() == ErrorKind::WriteZero);
                 if !allowed {
                     return Err(format!("error kind {:?} returned but the console raised {:?}", e.kind(), s.errors));
                 }
@@ -435,7 +464,7 @@ fn main_check(ctx: &Ctx) -> Outcome {
         *c <= 3
     });
     out.findings.extend(v);
-    out.push_part(json!({"system":"console fault scripts","inputs":inputs.len(),"max_tokens":maxlen,"deviation_bound":k,"ops":["write_all","write","write!"]}));
+    out.push_part(json!({"system":"console fault scripts","inputs":inputs.len(),"max_tokens":maxlen,"deviation_bound":k,"ops":["write_all","write","write!","write_vectored protocol"]}));
     out.set("evaluations", json!(runs.load(Ordering::Relaxed)));
     out.set("distinct_nontrivial", json!(deviating.load(Ordering::Relaxed)));
     out.set("rule", json!("evaluations = fault-script executions (input x op x console script); distinct_nontrivial = those with at least one short count or injected error"));
@@ -467,6 +496,7 @@ fn replay(v: &serde_json::Value) -> Result<(), String> {
             let op = match v["op"].as_str().unwrap() {
                 "WriteAll" => Op::WriteAll,
                 "Write" => Op::Write,
+                "Vectored" => Op::Vectored,
                 _ => Op::Fmt,
             };
             let forced: Vec<usize> = v["script"].as_array().unwrap().iter().map(|x| x.as_u64().unwrap() as usize).collect();
